@@ -573,7 +573,10 @@ Inductive opd :=
                                                   D_i^-1/2 K_i D_i^-1/2 *)
 | DCholOf (upper : bool) (base : opd)
 | DSumKron (fs1 fs2 : seq opd) (eig : seq (nat * mat * vec)).
-                                               (* kron fs1 + kron fs2 (SumKroneckerLinearOperator); eig = eigh oracle of the
+                                               (* kron fs1 + kron fs2 (SumKroneckerLinearOperator) - EXACTLY TWO Kronecker products: the
+                                                  library's _solve / _logdet / roots read linear_ops[0] and [1] only; an instance with more
+                                                  operands is outside the model and is flagged by the harness (model-arity);
+                                                  eig = eigh oracle of the
                                                   R_i^T A_i R_i, R_i the inverse root of the i-th factor of fs2 *)         (* CholLinearOperator(base.cholesky(upper=upper), upper=upper): a solve routed
                                                   through the factor operator cholesky() returns for the class of `base` *)
 
